@@ -45,7 +45,8 @@ GRAPH = {k: set(v) for k, v in _PIN['edges'].items()}
 STATE_OPS = ['queue', 'queue_r', 'pause', 'abort_req', 'abort_blk', 'fail_x', 'fail_n', 'complete', 'incomplete',
              'initialize', 'start']
 MGR_OPS = ['m_abort', 'm_queue', 'm_pause', 'm_remove']
-ENV_OPS = ['arm']     # give the transfer a local file (downloads) and live tasks, as the manager would
+ENV_OPS = ['arm', 'armfull']     # give the transfer a local file (downloads) and live tasks, as the manager would;
+#                                  armfull: nothing is left to transfer (empty file / resume at the announced size)
 TARGET = {'queue': 'QUEUED', 'queue_r': 'QUEUED', 'pause': 'PAUSED', 'abort_req': 'ABORTED', 'abort_blk': 'ABORTED',
           'fail_x': 'FAILED', 'fail_n': 'FAILED', 'complete': 'COMPLETE', 'incomplete': 'INCOMPLETE',
           'initialize': 'INITIALIZING', 'start': None, 'm_abort': 'ABORTED', 'm_queue': 'QUEUED',
@@ -177,8 +178,10 @@ class Rig:
 
     def run_op_sequential(self, op: str):
         """applies one op under the default schedule; returns (result, events)"""
-        if op == 'arm':
+        if op in ('arm', 'armfull'):
             self.arm()
+            if op == 'armfull':
+                self.transfer.filesize = self.transfer.bytes_transfered = (4 if self.direction == 'download' else 0)
             self.world.run_default_until_idle()
             return 'armed', []
         before = len(self.listener.events)
@@ -207,7 +210,7 @@ def check_edges(events, where) -> list[Violation]:
 def check_transition(direction, op, before, after, result, events) -> list[Violation]:
     """per-transition oracle of the sequential search"""
     out = check_edges(events, f"{direction} {before[0]} --{op}")
-    if op == 'arm':
+    if op in ('arm', 'armfull'):
         return out
     refused = (result is False) or result in ('InvalidStateTransition', 'TransferNotFoundError')
     if isinstance(result, str) and (result.startswith('exc:') or result.startswith('stuck')):
